@@ -71,7 +71,7 @@ impl Property for C18 {
          oracle = the generated instance itself: polynomials by id, equality kinds, id sets, value domains of the variables that occur with non-zero coefficient; non-trivial = >=1 integer or binary variable and >=1 variable without a finite lower bound; distinct = sha256(instance)"
     }
     fn required_labels(&self) -> Vec<String> {
-        ["bound-absent", "binary-no-bound", "neg-bound", "constant-only-constraint", "maximize", "nonlinear-objective", "nonlinear-constraint", "noncontiguous-ids", "removed-constraint", "half-infinite", "unused-variable", "integer-variable", "unsorted-terms", "huge-finite-bound", "sweep=big-dense", "multi-line-description", "file-name-without-.mps.gz", "linear-write-after-refused-write-to-the-same-path"].iter().map(|s| s.to_string()).collect()
+        ["bound-absent", "binary-no-bound", "neg-bound", "constant-only-constraint", "maximize", "nonlinear-objective", "nonlinear-constraint", "noncontiguous-ids", "removed-constraint", "half-infinite", "unused-variable", "integer-variable", "unsorted-terms", "huge-finite-bound", "sweep=big-dense", "multi-line-description", "file-name-without-.mps.gz", "linear-write-after-refused-write-to-the-same-path", "long-title", "long-non-ascii-title"].iter().map(|s| s.to_string()).collect()
     }
     fn cases(&self, tier: Tier) -> usize {
         match tier {
@@ -179,7 +179,22 @@ impl Property for C18 {
         // free-text metadata (not preserved by the format, but it must not disturb the file either)
         if huge == 0 && shuffle_seed[0] % 4 == 0 {
             let mut d = v1::instance::Description::default();
-            d.name = Some(["knapsack", "two words", "NAME", "ROWS"][shuffle_seed[1] as usize % 4].to_string());
+            // short names, and long titles (60..200 bytes) in which multi-byte characters straddle every byte offset
+            d.name = Some(match shuffle_seed[1] as usize % 7 {
+                0 => "knapsack".to_string(),
+                1 => "two words".to_string(),
+                2 => "NAME".to_string(),
+                3 => "ROWS".to_string(),
+                4 => "生産計画と在庫管理の最適化問題（多期間・多品目・多拠点モデル）その二".to_string(),
+                5 => format!("{}-région-Île-de-France-été-{}", "a".repeat(40 + shuffle_seed[3] as usize % 30), "é".repeat(30)),
+                _ => "x".repeat(64 + shuffle_seed[3] as usize % 140),
+            });
+            if d.name.as_ref().map(|n| n.len() > 64).unwrap_or(false) {
+                ctx.label("long-title");
+                if !d.name.as_ref().unwrap().is_ascii() {
+                    ctx.label("long-non-ascii-title");
+                }
+            }
             d.description = Some(["one line", "first line\nsecond line", "* starts like a comment\nENDATA", "ends with a newline\n", ""][shuffle_seed[2] as usize % 5].to_string());
             d.authors = vec!["A B".into()];
             if d.description.as_deref().map(|x| x.contains('\n')).unwrap_or(false) {
